@@ -181,6 +181,11 @@ class G:
                     self.kinds.add('shadow_builtin')
                 stmts.append(['assign', v, r.choice([gen.num_tree(r), ['str', 'top-' + v], ['list', [['num', '1']]], ['none']])])
         if r.random() < 0.06:
+            # compound assignment to a name that is bound at the builtin level only: it fails and binds nothing
+            bn = r.choice([n for n in ['len', 'max', 'keys', 'sum'] if n not in self.model.host] or ['keys'])
+            stmts.append(['short', bn, r.choice(['+=', '*=', '-=']), ['num', '1']])
+            self.kinds.add('shadow_builtin')
+        if r.random() < 0.06:
             # the names that index sugar maps to are names like any other: a binding at any level wins over the builtin
             self.kinds.add('shadow_builtin')
             if r.random() < 0.5:
@@ -278,7 +283,7 @@ def generate(seed, tier):
             prog[1].insert(len(prog[1]) - 1, g.use(nm, n))
         op.update(prog=prog, style=gen.style(S['render']), kinds=sorted(g.kinds))
         if rf.random() < 0.15:
-            op['budget'] = rf.randint(3, 40)          # budget_abort somewhere inside the program
+            op['budget'] = rf.randint(3, 40) if rf.random() < 0.7 else rf.choice([150, 300, 450])          # budget_abort somewhere inside the program (deep inside a recursion with the larger ones)
             ops.append(op)
             continue                                   # executed on scratch names in both worlds: state unchanged
         ops.append(op)
